@@ -27,7 +27,23 @@ func H_C20_Kaitai() {
 	n := vrt.Range("n", 0, 2)
 	recs := make([][]byte, n)
 	for i := range recs {
-		recs[i] = vrt.BytesOrNil(vrt.K("r", i), 2)
+		// nil | 0..2 symbolic bytes | a concrete record whose length needs a 2-byte [3-byte] varint
+		kinds := 3
+		if vrt.Thorough() {
+			kinds = 4
+		}
+		switch vrt.Choose(vrt.K("r", i, "kind"), kinds) {
+		case 0:
+			recs[i] = vrt.BytesOrNil(vrt.K("r", i), 2)
+		case 1:
+			recs[i] = vrt.Bytes(vrt.K("r", i), 2)
+		case 2:
+			recs[i] = vFiller(130 + 70*i)
+			vrt.Tag("two-byte-length")
+		case 3:
+			recs[i] = vFiller(16500)
+			vrt.Tag("three-byte-length")
+		}
 		if recs[i] == nil {
 			vrt.Tag("nil-record")
 		}
@@ -80,7 +96,7 @@ func H_C20_Kaitai() {
 				if comp == recordio.CompressionTypeNone {
 					stored = uint64(len(recs[i]))
 				} else {
-					stored = uint64(file[offs[i]+5])
+					stored = vStoredLen(file, offs[i])
 				}
 			}
 			vrt.Assert(vrt.EqBytes(kr.Payload, file[next-stored:next]), "kaitai/same-stored-payload-bytes")
@@ -95,4 +111,32 @@ func H_C20_Kaitai() {
 	vrt.Assert(known, "kaitai/compression-code-known-to-schema")
 	vrt.TraceBool("parsed", perr == nil)
 	vrt.Reach("kaitai/end")
+}
+
+func vFiller(n int) []byte {
+	b := make([]byte, n)
+	for i := range b {
+		b[i] = byte(1 + (i*7)%97)
+	}
+	return b
+}
+
+// vStoredLen decodes the compressed-length varint of the record header at off (marker 3, flag 1, uvarint, uvarint).
+func vStoredLen(file []byte, off uint64) uint64 {
+	p := off + 4
+	for file[p]&0x80 != 0 { // skip the uncompressed length
+		p++
+	}
+	p++
+	var v uint64
+	var shift uint
+	for {
+		b := file[p]
+		v |= uint64(b&0x7f) << shift
+		if b&0x80 == 0 {
+			return v
+		}
+		shift += 7
+		p++
+	}
 }
